@@ -46,7 +46,7 @@ func runC07(c *fw.C) {
 	c.Desc("cfg{%s} %s", cfg, p.Desc)
 	e := p.E
 	ctx := map[string]string{"relation": p.Relation, "old": p.Old.Kind, "new": p.New.Kind}
-	ro, err1 := setOf(e.Getter(), e.Format, p.Old.Root)
+	ro, err1 := setOf(p.OE.Getter(), e.Format, p.Old.Root)
 	rn, err2 := setOf(e.Getter(), e.Format, p.New.Root)
 	if err1 != nil || err2 != nil {
 		c.Obs("walk_failed", 1)
@@ -113,7 +113,7 @@ func runC07(c *fw.C) {
 	// sync clause
 	replica := doubles.NewStore()
 	for nme := range ro {
-		b, _ := e.Store.Get(nme)
+		b, _ := p.OE.Store.Get(nme)
 		replica.Put(nme, b)
 	}
 	for nme := range added {
@@ -151,7 +151,7 @@ func runC07(c *fw.C) {
 	if c.R.Chance(1, 2) {
 		oldOnly := doubles.NewStore()
 		for nme := range ro {
-			b, _ := e.Store.Get(nme)
+			b, _ := p.OE.Store.Get(nme)
 			oldOnly.Put(nme, b)
 		}
 		oe := *e
